@@ -179,7 +179,7 @@ let fmt_build_err = function
   | EEmptySamplesMap -> "ERR:empty"
   | EUnknownSample n -> "ERR:unknown:" ^ string_of_name n
   | EProjection e -> "ERR:proj:" ^ S.concat "_" (S.split_on_char ' ' (fmt_perr e))
-  | EPanicShape -> "PANIC"
+  | EInconsistentSamples -> "ERR:io"
 
 let run_create toks =
   match toks with
